@@ -543,6 +543,7 @@ def instances(rng, batch, n, mode="full", psd=False, only_cpat=False, rpat_only=
     # leaves ------------------------------------------------------------------------------------
     add("Dense", lambda c, nb: Dense(c, nb, n, n + 1))
     add("Dense<psd>", lambda c, nb: DensePsd(c, nb, n), True)
+    add("Dense<psd|n+2>", lambda c, nb: DensePsd(c, nb, n + 2), True, light=True)
     add("Diag", lambda c, nb: Diag(c, nb, n), True)
     add("Diag<signed>", lambda c, nb: Diag(c, nb, n, pos=False))
     add("ConstantDiag", lambda c, nb: CDiag(c, nb, n), True)
